@@ -140,6 +140,31 @@ pub async fn complete_with_status(
         .await
 }
 
+/// Reserve the session slot a responder-side handshake needs.
+///
+/// When the session table is full and holds no idle session that could be evicted, the
+/// initiator is told to come back later with a `Busy` status report - as the transport does
+/// when it cannot even admit the unsecured session of the first handshake message - and
+/// `Ok(None)` is returned. Without the report the initiator would only see its first message
+/// acknowledged and then wait for an answer until its own receive time-out.
+pub(crate) async fn reserve_session_or_busy<'a, C: Crypto>(
+    exchange: &mut Exchange<'a>,
+    crypto: C,
+) -> Result<Option<crate::transport::session::ReservedSession<'a>>, Error> {
+    match crate::transport::session::ReservedSession::reserve(exchange.matter(), crypto).await {
+        Ok(session) => Ok(Some(session)),
+        Err(e) if matches!(e.code(), ErrorCode::NoSpaceSessions) => {
+            warn!("No space for the new session and no idle session to evict, sending Busy");
+
+            // Minimum time to wait before retrying: 500 ms, as for the transport's own Busy
+            complete_with_status(exchange, SCStatusCodes::Busy, &[0xF4, 0x01]).await?;
+
+            Ok(None)
+        }
+        Err(e) => Err(e),
+    }
+}
+
 pub fn sc_write(
     wb: &mut WriteBuf,
     status_code: SCStatusCodes,
